@@ -1109,7 +1109,7 @@ func monitorJanitor(t *testing.T, r *vh.Run) {
 	}
 	results := make([]result, len(skews))
 	vh.Workers(len(skews), func(i int) {
-		f, err := os.CreateTemp("", "c02-janitor-*.json")
+		f, err := os.CreateTemp(os.Getenv("VERIF_WORK"), "c02-janitor-*.json")
 		if err != nil {
 			results[i].err = err.Error()
 			return
